@@ -267,6 +267,37 @@ Proof.
   rewrite A3, <- Hcl in Hcl'. rewrite <- (clusters_concat r'), Hcl', clusters_concat. reflexivity.
 Qed.
 
+(* ---- C03 for CollapseSpace: the result of collapsing a cluster-for-cluster image is the image ---- *)
+Lemma dedup_map (f : list Z -> list Z) L : (forall c, In c L -> is_sp (f c) = is_sp c) -> forall prev,
+  dedup prev (map f L) = map f (dedup prev L).
+Proof.
+  induction L as [|c L IH]; intros Hf prev; [reflexivity|]. cbn [map dedup]. rewrite (Hf c (or_introl eq_refl)).
+  assert (Hf' : forall c0, In c0 L -> is_sp (f c0) = is_sp c0) by (intros c0 Hc0; apply Hf; right; exact Hc0).
+  destruct (is_sp c); [destruct prev; [apply IH, Hf'|cbn [map]; f_equal; apply IH, Hf']|cbn [map]; f_equal; apply IH, Hf'].
+Qed.
+
+Lemma is_sp_wsc c : is_sp c = true -> wsc c = true.
+Proof. intro E. apply is_sp_true in E. subst c. reflexivity. Qed.
+
+Theorem collapse_space_image rho text sep r text' r' :
+  let t0 := if gis_empty sep then text else replace_all text sep [SP] in
+  let t0' := if gis_empty sep then text' else replace_all text' sep [SP] in
+  (forall c, wsc (rho c) = wsc c) -> clusters t0' = map rho (clusters t0) ->
+  safe_text t0 -> safe_text t0' -> collapse_space text sep = Ok r -> collapse_space text' sep = Ok r' ->
+  clusters r' = map (fun c => if is_sp c then c else rho c) (clusters r).
+Proof.
+  cbv zeta. intros Hk Him Hs Hs' Hr Hr'.
+  destruct (collapse_space_clusters text sep r Hs Hr) as (Hcl & _). destruct (collapse_space_clusters text' sep r' Hs' Hr') as (Hcl' & _).
+  rewrite Hcl', Hcl, Him.
+  assert (Em : map normws (map rho (clusters (if gis_empty sep then text else replace_all text sep [SP])))
+             = map (fun c => if is_sp c then c else rho c) (map normws (clusters (if gis_empty sep then text else replace_all text sep [SP])))).
+  { rewrite !map_map. apply map_ext. intro c. unfold normws. rewrite Hk. destruct (wsc c) eqn:Ew; [reflexivity|].
+    destruct (is_sp c) eqn:Es; [apply is_sp_wsc in Es; congruence|reflexivity]. }
+  rewrite Em. apply dedup_map. intros c Hin. destruct (is_sp c) eqn:Es; [exact Es|].
+  apply in_map_iff in Hin as (c0 & <- & _). unfold normws in *. destruct (wsc c0) eqn:Ew; [cbn in Es; discriminate|].
+  destruct (is_sp (rho c0)) eqn:Er; [apply is_sp_wsc in Er; rewrite Hk in Er; congruence|reflexivity].
+Qed.
+
 (* non-vacuity: every text of plain (class Other) code points qualifies, e.g. printable ASCII *)
 Lemma clusters_plain rs : Forall plain rs -> clusters rs = map (fun r => [r]) rs.
 Proof.
